@@ -12,38 +12,9 @@ Local Open Scope Qc_scope.
 (** * comb                                                                             *)
 (* ------------------------------------------------------------------------------------ *)
 
-Definition comb_sweep (N : nat) : bool :=
-  forallb (fun n => let r := prow n in
-                    forallb (fun k => Z.eqb (comb n k) (nth k r 0%Z)) (seq 0 (S n)))
-          (seq 0 (S N)).
-
-Lemma comb_sweep_56 : comb_sweep 56 = true.
-Proof. vm_compute. reflexivity. Qed.
-
-Lemma comb_above n k : (n < k)%nat -> comb n k = 0%Z.
-Proof. intros H. unfold comb. apply Nat.ltb_lt in H. rewrite H. reflexivity. Qed.
-
-Lemma comb_sweep_sound N : comb_sweep N = true ->
-  forall n k : nat, (n <= N)%nat -> (k <= n)%nat -> comb n k = binom n k.
-Proof.
-  intros H n k Hn Hk. unfold comb_sweep in H.
-  rewrite forallb_forall in H. specialize (H n). cbv zeta in H.
-  rewrite forallb_forall in H.
-  assert (E : Z.eqb (comb n k) (nth k (prow n) 0%Z) = true).
-  { apply H; apply in_seq; lia. }
-  apply Z.eqb_eq in E. rewrite E. apply prow_binom.
-Qed.
-
-Theorem comb_spec_small_lemma : forall n k : nat, (n <= 56)%nat -> comb n k = binom n k.
-Proof.
-  intros n k Hn. destruct (le_lt_dec k n) as [L|G].
-  - exact (comb_sweep_sound 56 comb_sweep_56 n k Hn L).
-  - rewrite comb_above, binom_gt by exact G. reflexivity.
-Qed.
-
-Theorem comb_refuted_lemma :
-  comb 57 25 = 9929472283517788%Z /\ binom 57 25 = 9929472283517787%Z.
-Proof. split; [vm_compute; reflexivity | rewrite <- prow_binom; vm_compute; reflexivity]. Qed.
+(* the translated comb (integer floor division n! // (k! (n-k)!)) is the binomial coefficient *)
+Theorem comb_spec_lemma : forall n k : nat, comb n k = binom n k.
+Proof. intros n k. unfold comb. apply comb_intdiv_spec. Qed.
 
 (* ------------------------------------------------------------------------------------ *)
 (** * moments dictionaries                                                             *)
@@ -131,12 +102,31 @@ Proof. apply (dloop_untouched g). Qed.
 Lemma qpow_opp b n : qpow (- b) n = qpow (- (1)) n * qpow b n.
 Proof. replace (- b) with (- (1) * b) by ring. apply qpow_mul_base. Qed.
 
+Lemma central_1_zero L : mass L = 1 -> central L 1 = 0.
+Proof.
+  intros HM. unfold central.
+  rewrite (Ex_ext L _ (fun v => v - raw L 1)) by (intros; apply qpow_one).
+  rewrite Ex_shift1 by exact HM. ring.
+Qed.
+
+(* centrals[1] is the literal 0 *)
+Theorem centrals_key1 (cmb : nat -> nat -> Z) d :
+  dget (raw_moments_to_centrals_with cmb d) 1 = 0.
+Proof.
+  unfold raw_moments_to_centrals_with. cbv zeta.
+  etransitivity; [apply dloop_untouched_raw with (g := fun _ i => _); lia|].
+  rewrite dget_dset_same. apply zq_0.
+Qed.
+
 Theorem centrals_exact_gen (cmb : nat -> nat -> Z) L K d i :
   (forall n k, (n <= K)%nat -> cmb n k = binom n k) ->
-  mass L = 1 -> moments_of L K d -> (2 <= i <= K)%nat ->
+  mass L = 1 -> moments_of L K d -> (1 <= i <= K)%nat ->
   dget (raw_moments_to_centrals_with cmb d) i = central L i.
 Proof.
-  intros Hc HM [HL HD] Hi. unfold raw_moments_to_centrals_with. cbv zeta.
+  intros Hc HM [HL HD] Hi.
+  destruct (Nat.eq_dec i 1) as [->|Hi1].
+  { rewrite centrals_key1. symmetry. apply central_1_zero. exact HM. }
+  unfold raw_moments_to_centrals_with. cbv zeta.
   change (length (ditems d)) with (dlen d). rewrite HL.
   etransitivity; [apply dloop_at_raw with (g := fun _ i => _); lia|]. cbv beta.
   etransitivity; [apply fold_left_add|].
@@ -149,22 +139,6 @@ Proof.
     - rewrite raw_0. symmetry. exact HM.
     - apply HD. lia. }
   rewrite Hm. ring.
-Qed.
-
-(* centrals[1] is the MEAN (the literal `{1: moments[1]}`), whereas the first central moment is 0 *)
-Theorem centrals_key1 (cmb : nat -> nat -> Z) d :
-  dget (raw_moments_to_centrals_with cmb d) 1 = dget d 1.
-Proof.
-  unfold raw_moments_to_centrals_with. cbv zeta.
-  etransitivity; [apply dloop_untouched_raw with (g := fun _ i => _); lia|].
-  rewrite dget_dset_same. reflexivity.
-Qed.
-
-Lemma central_1_zero L : mass L = 1 -> central L 1 = 0.
-Proof.
-  intros HM. unfold central.
-  rewrite (Ex_ext L _ (fun v => v - raw L 1)) by (intros; apply qpow_one).
-  rewrite Ex_shift1 by exact HM. ring.
 Qed.
 
 (* ------------------------------------------------------------------------------------ *)
@@ -351,69 +325,16 @@ Qed.
 (* ------------------------------------------------------------------------------------ *)
 
 Theorem centrals_exact L K d i :
-  mass L = 1 -> moments_of L K d -> (2 <= i <= K)%nat ->
+  mass L = 1 -> moments_of L K d -> (1 <= i <= K)%nat ->
   dget (raw_moments_to_centrals_with binom d) i = central L i.
 Proof. apply centrals_exact_gen. reflexivity. Qed.
 
-Lemma comb_ok_upto K : (K <= 56)%nat -> forall n k, (n <= K)%nat -> comb n k = binom n k.
-Proof. intros HK n k Hn. apply comb_spec_small_lemma. lia. Qed.
-
-Theorem centrals_exact_polar_small L K d i :
-  (K <= 56)%nat -> mass L = 1 -> moments_of L K d -> (2 <= i <= K)%nat ->
+Theorem centrals_exact_polar L K d i :
+  mass L = 1 -> moments_of L K d -> (1 <= i <= K)%nat ->
   dget (raw_moments_to_centrals d) i = central L i.
-Proof. intros HK. apply centrals_exact_gen. apply comb_ok_upto. exact HK. Qed.
+Proof. apply centrals_exact_gen. intros n k _. apply comb_spec_lemma. Qed.
 
-Theorem cumulants_polar_small L K d i :
-  (K <= 56)%nat -> mass L = 1 -> moments_of L K d -> (1 <= i <= K)%nat ->
+Theorem cumulants_polar L K d i :
+  mass L = 1 -> moments_of L K d -> (1 <= i <= K)%nat ->
   dget (raw_moments_to_cumulants d) i = cumulant_log (raw L) i.
-Proof. intros HK. apply cumulants_are_log_coefficients. apply comb_ok_upto. exact HK. Qed.
-
-(* ---- refutations with Polar's own comb: X ~ Bernoulli(1/2) ---- *)
-Definition bernoulli_half : law := [(mkq 1 2, mkq 0 1); (mkq 1 2, mkq 1 1)].
-Definition prow_binom_fn (n k : nat) : Z := nth k (prow n) 0%Z.
-
-Lemma bernoulli_half_prob : is_prob bernoulli_half.
-Proof.
-  split.
-  - intros p [<-|[<-|[]]]; cbn [fst]; unfold Qcle; vm_compute; discriminate.
-  - apply Qc_eqb_true. vm_compute. reflexivity.
-Qed.
-
-Lemma centrals_57_values :
-  qpair (dget (raw_moments_to_centrals (fst (get_all_moments (raw bernoulli_half) (fun _ => true) 57))) 57)
-    = ((-127)%Z, 8589934592%positive)
-  /\ qpair (central bernoulli_half 57) = (0%Z, 1%positive).
-Proof. split; vm_compute; reflexivity. Qed.
-
-Theorem centrals_refuted_lemma :
-  exists (L : law) (K : nat) (d : pydict) (i : nat),
-    is_prob L /\ moments_of L K d /\ (2 <= i <= K)%nat /\
-    dget (raw_moments_to_centrals d) i <> central L i.
-Proof.
-  exists bernoulli_half, 57%nat, (fst (get_all_moments (raw bernoulli_half) (fun _ => true) 57)), 57%nat.
-  split; [exact bernoulli_half_prob|]. split; [apply get_all_moments_spec|]. split; [lia|].
-  intros E. destruct centrals_57_values as [H1 H2]. rewrite E, H2 in H1. discriminate H1.
-Qed.
-
-Lemma cumulants_58_values :
-  Qc_eqb (dget (raw_moments_to_cumulants (fst (get_all_moments (raw bernoulli_half) (fun _ => true) 58))) 58)
-         (dget (raw_moments_to_cumulants_with prow_binom_fn (fst (get_all_moments (raw bernoulli_half) (fun _ => true) 58))) 58)
-  = false.
-Proof. vm_compute. reflexivity. Qed.
-
-Theorem cumulants_refuted_lemma :
-  exists (L : law) (K : nat) (d : pydict) (i : nat),
-    is_prob L /\ moments_of L K d /\ (1 <= i <= K)%nat /\
-    dget (raw_moments_to_cumulants d) i <> cumulant_log (raw L) i.
-Proof.
-  exists bernoulli_half, 58%nat, (fst (get_all_moments (raw bernoulli_half) (fun _ => true) 58)), 58%nat.
-  split; [exact bernoulli_half_prob|]. split; [apply get_all_moments_spec|]. split; [lia|].
-  intros E.
-  rewrite <- (cumulants_are_log_coefficients prow_binom_fn bernoulli_half 58
-                (fst (get_all_moments (raw bernoulli_half) (fun _ => true) 58)) 58) in E.
-  - pose proof cumulants_58_values as H. rewrite E in H. rewrite Qc_eqb_refl in H. discriminate H.
-  - intros n k _. apply prow_binom.
-  - apply bernoulli_half_prob.
-  - apply get_all_moments_spec.
-  - lia.
-Qed.
+Proof. apply cumulants_are_log_coefficients. intros n k _. apply comb_spec_lemma. Qed.
